@@ -611,7 +611,7 @@ def run(ck):
         if quick:
             ks = sorted(set(fib_upto(k1) + [k1, k1 + 1, k1 + 2]))
         else:
-            ks = list(range(0, min(k1, 160) + 21)) + [k for k in fib_upto(k1 + 20) if k > 160] + ([k1 + j for j in range(-2, 21)] if k1 > 160 else [])
+            ks = list(range(0, min(k1, 120) + 21)) + [k for k in fib_upto(k1 + 20) if k > 120] + ([k1 + j for j in range(-2, 21)] if k1 > 120 else [])
             ks = sorted(set(k for k in ks if k >= 0))
         K = k1 + 40 if first[p] is not None else 600
         names = list(hs)
@@ -707,8 +707,10 @@ MANIFEST = {
     "text": "Lean 4 theorems over an executable protocol machine (solve k | clear | clearQuery | setProblemDefinition | "
             "addStart | getPlannerData acting on planner core, PlannerInputStates counters, problem-definition solution list "
             "and an explicit allocation log) with an RRT-like tree core mirroring geometric::RRT's prologue, `while(!ptc)` "
-            "loop and epilogue: status truthfulness, non-empty paths from a start, monotone best solution, clear() = initial "
-            "state, no duplicate starts, balanced allocations - for every interruption index k and every history. "
+            "loop and epilogue: status truthfulness, non-empty paths that begin at a valid start state (for histories that "
+            "clear() after replacing the problem definition; the code keeps the old tree otherwise - finding F47), "
+            "monotone best solution, clear() = initial state, no duplicate starts, lastGoalMotion_ never dangling, balanced "
+            "allocations - for every interruption index k and every history. "
             "The model is tied to geometric::RRT by lock-step runs (per-iteration oracle answers taken from the real run's "
             "trace). All other planners (40 geometric, 5 control) are exploration-backed only: enumerated k x histories "
             "run against the real code and judged by a spec oracle with ASan/LSan and an allocation-counting state space.",
